@@ -1105,11 +1105,10 @@ class Node:
         origin_host, recv_time = self._origin_waiting_answer[message_id]
         process_time = time.time() - recv_time
 
-        if origin_host not in self._sent_answers:
-            self._sent_answers[origin_host] = deque(
-                maxlen=self.retransmit_queue_size)
-        
-        self._sent_answers[origin_host].append(message.header.end_to_end_identifier)
+        # one atomic step: answers are recorded by several threads
+        self._sent_answers.setdefault(
+            origin_host, deque(maxlen=self.retransmit_queue_size)
+        ).append(message.header.end_to_end_identifier)
 
         del self._origin_waiting_answer[message_id]
 
